@@ -39,6 +39,7 @@ func mutAnRule(w *World, r *Result, only func(rel string) bool) int {
 	n := 0
 	shiftSkipRule(w, r, only)
 	sepIndexRule(w, r, only)
+	worklistRangeRule(w, r, only)
 	for _, fi := range sortedFuncs(w) {
 		rel := w.Rel(fi.Obj.Pkg())
 		if fi.Decl.Body == nil || !strings.HasPrefix(rel, "generator") || (only != nil && !only(rel)) {
@@ -403,6 +404,87 @@ func sepIndexRule(w *World, r *Result, only func(rel string) bool) int {
 				n++
 				r.bad("SEP-INDEX", fi.Name, "if "+normLocals(info, ifs.Cond)+" { <literal> } after `if "+normLocals(info, filterCond)+" { continue }`", w.Pos(ifs.Pos()),
 					"the loop skips elements (`"+filtered+"`), so the index of "+es(loop.X)+" is not the number of elements emitted so far: when the element at the tested index is skipped, the literal (separator or bracket) is written in the wrong place — a leading or missing separator in the generated text")
+			}
+			return true
+		})
+	}
+	return n
+}
+
+// worklistRangeRule (WORKLIST-RANGE): `for _, x := range work` evaluates the slice once; elements appended to it while
+// the loop runs are never visited. When the address of the slice was handed out (`&work` stored in a struct or passed
+// on) and a function the loop body reaches appends through a pointer of that type, the loop is a worklist that stops
+// early: whatever the body discovers is registered and then forgotten. A worklist must re-read the length
+// (`for i := 0; i < len(work); i++`).
+func worklistRangeRule(w *World, r *Result, only func(rel string) bool) int {
+	n := 0
+	for _, fi := range sortedFuncs(w) {
+		rel := w.Rel(fi.Obj.Pkg())
+		if fi.Decl.Body == nil || (only != nil && !only(rel)) {
+			continue
+		}
+		info := fi.Pkg.TypesInfo
+		// locals whose address is taken
+		addr := map[types.Object]bool{}
+		ast.Inspect(fi.Decl.Body, func(x ast.Node) bool {
+			if u, ok := x.(*ast.UnaryExpr); ok && u.Op == token.AND {
+				if id := identOf(u.X); id != nil {
+					if _, isSlice := info.TypeOf(id).Underlying().(*types.Slice); isSlice {
+						addr[objOf(info, id)] = true
+					}
+				}
+			}
+			return true
+		})
+		if len(addr) == 0 {
+			continue
+		}
+		ast.Inspect(fi.Decl.Body, func(x ast.Node) bool {
+			loop, ok := x.(*ast.RangeStmt)
+			if !ok || identOf(loop.X) == nil || !addr[objOf(info, identOf(loop.X))] {
+				return true
+			}
+			st := info.TypeOf(loop.X)
+			// the address must have been taken before the loop
+			// functions reached from the body that append through a pointer to this slice type
+			var grower *FuncInfo
+			var growAt token.Pos
+			seen := map[*FuncInfo]bool{}
+			var reach func(body ast.Node, inf *types.Info, cur *FuncInfo, depth int)
+			reach = func(body ast.Node, inf *types.Info, cur *FuncInfo, depth int) {
+				ast.Inspect(body, func(y ast.Node) bool {
+					switch v := y.(type) {
+					case *ast.AssignStmt:
+						if len(v.Lhs) == 1 && len(v.Rhs) == 1 {
+							if star, ok := ast.Unparen(v.Lhs[0]).(*ast.StarExpr); ok {
+								if c, ok := v.Rhs[0].(*ast.CallExpr); ok && isBuiltinCall(inf, c, "append") {
+									if pt, ok := inf.TypeOf(star.X).Underlying().(*types.Pointer); ok && types.Identical(pt.Elem(), st) && grower == nil && cur != nil {
+										grower, growAt = cur, v.Pos()
+									}
+								}
+							}
+						}
+					case *ast.CallExpr:
+						if depth >= 6 {
+							return true
+						}
+						if fn := calleeOf(inf, v); fn != nil {
+							if cf := w.Funcs[fn]; cf != nil && cf.Decl.Body != nil && !seen[cf] {
+								seen[cf] = true
+								reach(cf.Decl.Body, cf.Pkg.TypesInfo, cf, depth+1)
+							}
+						}
+					}
+					return true
+				})
+			}
+			reach(loop.Body, info, nil, 0)
+			n++
+			cons := "for range " + normLocals(info, loop.X) + " (address taken)"
+			if grower != nil {
+				r.bad("WORKLIST-RANGE", fi.Name, cons, w.Pos(loop.Pos()), "the loop body reaches "+grower.Name+", which appends through a pointer to this slice ("+w.Pos(growAt)+"); `range` read the slice once, so the elements discovered while the loop runs are never processed: what they stand for stays incomplete")
+			} else {
+				r.ok("WORKLIST-RANGE", fi.Name, cons, w.Pos(loop.Pos()), "nothing reached from the loop body appends through a pointer to this slice type", true)
 			}
 			return true
 		})
